@@ -162,7 +162,14 @@ function aster.parse(content, name, extension)
   src = {content=content, name=name}
   extension = extension or (name and name:match('%.([^.]+)$')) or 'nelua'
   local syntax = aster.syntaxes[extension] or aster.syntaxes.nelua
-  local ast, errlabel, errpos = syntax.patt:match(content)
+  local ok, ast, errlabel, errpos = pcall(syntax.patt.match, syntax.patt, content)
+  if not ok then -- the matcher gave up (capture nesting / backtrack stack limits): report it as a syntax error
+    local errmsg = 'input is nested too deeply for the parser ('..tostring(ast):gsub('^.-:%d+: ', '')..')'
+    local loc = {srcname=name, srccode=content, pos=1}
+    loc.lineno, loc.colno, loc.line, loc.linestart, loc.lineend = lpegrex.calcline(content, 1)
+    except.raise({label = 'ParseError', message = errorer.get_pretty_source_pos_errmsg(loc, errmsg, 'syntax error'),
+                  errlabel = 'NestingTooDeep', errpos = 1})
+  end
   if ast and syntax.transformcb then
     ast, errlabel, errpos = syntax.transformcb(ast, content, name)
   end
